@@ -1453,7 +1453,8 @@ class FlatteningOperator(Operator):
 
     def _call(self, x):
         """Flatten ``x``."""
-        return np.ravel(x, order=self.order)
+        # `flatten` always copies, `ravel` would return a view of `x`
+        return x.asarray().flatten(order=self.order)
 
     @property
     def order(self):
@@ -1526,8 +1527,9 @@ class FlatteningOperator(Operator):
 
             def _call(self, x):
                 """Reshape ``x`` back to n-dim. shape."""
+                # Copy, since `reshape` returns a view of `x` if it can
                 return np.reshape(x.asarray(), self.range.shape,
-                                  order=op.order)
+                                  order=op.order).copy()
 
             @property
             def adjoint(self):
